@@ -28,6 +28,11 @@ def run(tier, seed, res, lean):
     stats = merge_stats([o[0] for o in outs])
     model_bad = [b for o in outs for b in o[1]]
     c04_bad = [b for o in outs for b in o[2]]
+    pyeq = [b for b in c04_bad if all(f.get('pyeq') for f in b['failures'])]
+    c04_bad = [b for b in c04_bad if not all(f.get('pyeq') for f in b['failures'])]
+    for b in pyeq[:2]:
+        res.violations.append(Violation('c04-pyeq', b['failures'][0]['msg'][:400],
+                                        {'suite': 'S-CACHE', 'signature': {'kind': 'pyeq_distinct_types'}, **b}))
     for b in c04_bad[:6]:
         res.violations.append(Violation('c04-oracle', b['failures'][0]['msg'][:400], {'suite': 'S-CACHE', **b}))
     col_bad = [b for o in col for b in o[1]]
